@@ -1,5 +1,6 @@
 import LithiumModel.Testcase
 import LithiumModel.Lines
 import LithiumModel.Load
+import LithiumModel.World
 import LithiumModel.Proto
 import LithiumModel.Dispatch
